@@ -379,6 +379,11 @@ def r3_pruning(repo, rep, view, T):
     other = [x for x, t, forms in texts if x not in over and not any(re.fullmatch(a_, fm) for a_ in allowed for fm in forms)]
     texts = [(x, t) for x, t, _ in texts]
     arg = norm(call.args[0]) if isinstance(call, ast.Call) and call.args else ''
+    if arg != T and isinstance(call, ast.Call) and call.args:
+      a0_ = call.args[0]
+      if isinstance(a0_, ast.Call) and isinstance(a0_.func, ast.Name) and a0_.func.id in ('frozenset', 'set', 'tuple', 'list', 'sorted') and len(a0_.args) == 1 \
+          and not a0_.keywords and norm(a0_.args[0]) == T:
+        arg = T               # frozenset(T) / set(T) / tuple(T): the same members, stored in another container
     rep.check(bool(over) and not other and arg == T, 'R3/pruning', 'a treatment group is stored for pruning only when its optimistic budget exceeds the maximum', f.qualname,
               '%s under %s' % (norm(call)[:50], ' and '.join(('' if t else 'not ') + x[:60] for x, t in texts)),
               'a treatment group is added to the pruning list under `%s` — not (only) because its optimistic budget exceeds budget_range[1]: supersets of groups rejected for another reason are pruned although they can be feasible'
